@@ -162,3 +162,28 @@ def c14(chk):
     chk.exhaustive = True
     spec_mutant(chk, "listener_ignores_name", "AnemoIdentity.tla", "AnemoIdentity.cfg",
                 [("AnemoIdentity.tla", "  /\\ c.san \\in listenerNames\n", "")], workers=1)
+
+
+@prop("C06")
+def c06(chk):
+    chk.rule = ("cases = hostile streams recorded, by (byte class: random / truncated-valid / bad magic / version / reserved / "
+                "4 GiB and 9 MiB frame prefixes / 2^64-1 string and map lengths / invalid UTF-8 / mutated-valid / preamble only "
+                "/ absurd body length / long odd routes, how the stream ended: finish / reset / stop / drop / read / left open, "
+                "kind: bidirectional / unidirectional / datagram), interleaved with honest calls that must succeed; all non-trivial")
+    chk.assumptions = ["malformed QUIC packets are quinn's job; exhaustion by sheer volume is out of scope",
+                       "the adversary holds a valid identity of its own (it is a connected peer)"]
+    chk.add_mc(tlc_mc("AnemoRpc.tla", "MC_Rpc_hostile.cfg", workers=8, timeout=900))
+    runs = 8 if quick(chk) else 200
+    summ = harness("c06", out=os.path.join(vlib.WORK, "C06"), seed=chk.seed, runs=runs, jobs=8, files=4,
+                   streams=60 if quick(chk) else 150)
+    summ["args"] = {}
+    import copy
+    s2 = copy.deepcopy(summ)
+    trace_check(chk, "AnemoRpcTrace.tla", "AnemoRpcTrace.cfg", summ, label="hostile-rpc")
+    trace_check(chk, "AnemoConnTrace.tla", "AnemoConnTrace.cfg", s2, label="hostile-conn")
+    chk.traces -= len(s2["runs"])      # the same runs, validated by two specifications
+    count_cases(chk, summ, lambda r: (r["class"], r["ending"], r["len"] // 64) if r["ev"] == "adv.stream" else None)
+    sample_events(chk, summ, ("adv.stream", "srv.err"), n=4)
+    spec_mutant(chk, "garbage_reaches_service", "AnemoRpc.tla", "MC_Rpc_hostile.cfg",
+                [("AnemoRpc.tla", 'Invoke(q) == /\\ Live /\\ ss[q] = "reading" /\\ ~reset[q] /\\ ~bad[q]',
+                  'Invoke(q) == /\\ Live /\\ ss[q] = "reading" /\\ ~reset[q]')], workers=4)
